@@ -9,7 +9,7 @@ dir=$(mktemp -d /tmp/gvseed.XXXXXX); rmdir "$dir"
 git -C /repo worktree add -q --detach "$dir" HEAD
 trap 'git -C /repo worktree remove --force "$dir" >/dev/null 2>&1; rm -rf "$dir"' EXIT
 cd "$dir"
-mkdir -p _seed; cp "$seed/demo.py" _seed/demo.py
+mkdir -p _seed; cp "$seed"/*.py _seed/
 PYTHONPATH="$dir" /venv/bin/python -W ignore _seed/demo.py >/dev/null 2>&1; echo "demo_without_patch_exit=$?"
 git apply "$seed/patch.diff" || { echo "patch_applies=no"; exit 3; }
 echo "patch_applies=yes"
